@@ -31,16 +31,18 @@ type vfC11Case struct {
 func (s *vfC11Seen) resumeSeen() bool { return s != nil && s.resume != nil }
 
 type vfC11Seen struct {
-	resume       *vfElem
-	bind         bool
-	enable       bool
-	enabledId    string
-	done         string // bound | resumed | aborted
-	err          string
-	bindRefused  bool
-	enableFailed bool
-	sentBase     int // stanzas the server had counted on this stream-managed session before the three new ones
-	ackedH       int
+	resume      *vfElem
+	bind        bool
+	enable      bool
+	enabledId   string
+	done        string // bound | resumed | aborted
+	err         string
+	bindRefused bool
+	// resumeConfirmed: the peer answered <resumed/> with the right id on this connection
+	resumeConfirmed bool
+	enableFailed    bool
+	sentBase        int // stanzas the server had counted on this stream-managed session before the three new ones
+	ackedH          int
 }
 
 func vfC11Run(run *vfkit.Run, cs *vfC11Case) {
@@ -97,12 +99,17 @@ func vfC11Run(run *vfkit.Run, cs *vfC11Case) {
 				sn.resume = &ec
 				switch sc.Reply {
 				case "resumed":
+					sn.resumeConfirmed = true
 					pc.Send(fmt.Sprintf("<resumed xmlns='%s' previd='%s' h='%d'/>", vfNSSM, vfAttrEsc(e.Attrs["previd"]), *lastAcked))
 					resumedOK = true
 					sn.done = "resumed"
 					break loop
 				case "resumed-other":
 					pc.Send(fmt.Sprintf("<resumed xmlns='%s' previd='not-%s' h='0'/>", vfNSSM, vfAttrEsc(e.Attrs["previd"])))
+				case "resumed-noid": // confirms something, but not this session: no previd at all
+					pc.Send(fmt.Sprintf("<resumed xmlns='%s' h='0'/>", vfNSSM))
+				case "resumed-emptyid":
+					pc.Send(fmt.Sprintf("<resumed xmlns='%s' previd='' h='0'/>", vfNSSM))
 				case "failed":
 					pc.Send("<failed xmlns='" + vfNSSM + "'/>")
 				case "failed-cond":
@@ -253,6 +260,16 @@ func vfC11Run(run *vfkit.Run, cs *vfC11Case) {
 				}
 				if sc.Reply == "resumed" && len(heldBefore) > 0 {
 					run.Count("held_stanzas_compared_across_resume", 1)
+				}
+				// a session that was bound afresh (the old one refused, or nothing to resume) starts with nothing held:
+				// what the dead session still owed the server belongs to that session's numbering, not to this one's
+				if sc.SMAdv && seen[k].bind && !seen[k].bindRefused && !seen[k].resumeConfirmed && len(heldAfter) > 0 && len(heldBefore) > 0 && !unknownState {
+					run.Violation("C11/old-sessions-held-stanzas-on-fresh-session", fmt.Sprintf("connection %d bound a fresh session (reply to <resume/>: %q); it starts out holding %s of the old session", k, sc.Reply, vfClipList(heldAfter)), cs)
+					go c.Disconnect()
+					return
+				}
+				if sc.SMAdv && seen[k].bind && len(heldBefore) > 0 {
+					run.Count("fresh_sessions_checked_for_leftover_stanzas", 1)
 				}
 			}
 		}
@@ -425,7 +442,7 @@ func TestVf_C11(t *testing.T) {
 		vfC11Run(run, &rc)
 		return
 	}
-	replies := []string{"resumed", "resumed-other", "failed", "failed-cond", "failed-item", "unexpected", "malformed", "close"}
+	replies := []string{"resumed", "resumed-other", "resumed-noid", "resumed-emptyid", "failed", "failed-cond", "failed-item", "unexpected", "malformed", "close"}
 	var cases []*vfC11Case
 	for _, er := range []string{"true", "false", ""} {
 		first := vfC11Conn{SMAdv: true, EnableRes: er, Stanzas: 2}
